@@ -54,6 +54,7 @@ for c in "${checks[@]}"; do
   n=0
   for f in replays/${c}-*.json; do
     [ -f "$f" ] || continue
+    case "$f" in *-inflight-*) continue;; esac
     n=$((n+1)); cp "$f" "corpus/$c/seeded-$id-$n.json"; say "saved corpus/$c/seeded-$id-$n.json"
   done
 done
